@@ -253,6 +253,26 @@ def gen_queue_full(rng, exe):
     return g.finish(), True
 
 
+def gen_late_target(rng, exe):
+    """C03: a target connects after the source has announced a watermark and has since been acknowledged beyond it: the stale
+    watermark is replayed to the newcomer, which acknowledges it; the receiver must not let its acknowledgements to the
+    source fall back to that level - not in its regular path and not in its idle keep-alive (time passes between events)."""
+    nt = rng.range(2, 3)
+    g = Gen(rng, exe, 1, nt, stalls=False)
+    g.connect(0)
+    g.batch(0, watermark=True)
+    for _ in range(rng.range(1, 3)):
+        g.batch(0, force_targets=[0], ntasks=rng.range(1, 5))
+        g.ack(0, "prompt")
+    for t in range(1, nt):
+        g.connect(t)
+        g.ack(t, "prompt")
+        g.ack(0, "repeat")
+    g.incomplete = False
+    g.completion_rounds()
+    return g.finish(), True
+
+
 def gen_restart_completion(rng, exe):
     """C03: the source stream of a shard is re-established while its previous incarnation is still registered (an ordinary
     reconnect); afterwards the source keeps announcing its watermark and the targets acknowledge: the acknowledgements on
